@@ -486,6 +486,31 @@ def run(ctx):
             sb, tt, ff = sw[0]
             ctx.check(must_pass(f, [ff], toks), "EMPTY", "C13:EMPTY:%s:legacy-writes-nothing" % nm, "an empty collection is written as `%s` under every option" % tok,
                       "with empty_as_braces = false %s writes nothing for an empty collection: the node reads back as null, so Option<Vec<_>> / Option<Map> holding an empty collection comes back as None (and an untyped target sees null)" % nm, config, ctx.where(f, sb))
+        # ---- KEYSINK: the scalar-key sink writes text it did not choose itself only through its quoting analysis.  In every
+        # method of `<&mut KeyScalarSink as Serializer>` a `push_str` / `write_str` of a non-constant string happens in
+        # `serialize_str` alone (whose plain write is guarded by the predicates, rule C12:TABLE:emitter-consults); a method
+        # that receives a `&str` (variant names, chars) hands it to `serialize_str`.  A variant renamed to `x: y`, `~` or
+        # `# z`, or called `Null` / `True`, written raw is a different key — or not a key at all — when read back.
+        sink = [f for f in fx.fns_matching(r"^<&mut ser::KeyScalarSink as serde::Serializer>::") if "{closure" not in f.npath]
+        ctx.floor("KEYSINK.methods", len(sink), 30, config)
+        raw, routed = [], 0
+        for f in sink:
+            ctx.saw(f)
+            isstr = f.npath.endswith("::serialize_str")
+            for b, t in f.calls():
+                c = last_seg(fx.callee_decl(t) or fx.callee(t))
+                if c in ("push_str", "write_str") and len(t["args"]) > 1:
+                    with f.deep():
+                        a = f.sym_operand(t["args"][1])
+                    if not sym_contains(a, lambda n: n[0] == "arg"):
+                        continue   # text the method chose itself (`null`, `true` / `false`)
+                    if not isstr:
+                        raw.append("%s writes `%s`" % (last_seg(f.npath), render(a)[:40]))
+                if fx.callee(t).endswith("KeyScalarSink as serde::Serializer>::serialize_str"):
+                    routed += 1
+        ctx.floor("KEYSINK.routed-to-serialize_str", routed, 2, config)
+        ctx.check(not raw, "WHO-WRITES", "C13:KEYSINK:text-only-through-serialize_str", "only serialize_str writes caller-supplied text into a scalar key (%d methods, %d hand their text to it)" % (len(sink), routed),
+                  "a scalar-key method writes caller-supplied text without the quoting analysis (%s): a unit variant renamed to `x: y`, `~`, `# z` or named `Null` / `True` is emitted as a plain key that reads back as something else" % "; ".join(raw), config, ctx.where(sink[0]) if sink else None)
         # option validation precedes serializer construction
         for name in ("to_fmt_writer_with_options", "to_io_writer_with_options"):
             f = fx.fn(name)
